@@ -26,6 +26,8 @@ func chainOps(o hreg.Opts, rng *rand.Rand, st *hreg.Stats, emit func(op string, 
 		{chain.Fast(1, 2, 3, 4), 32, "leak-recover", 13},
 		{chain.Fast(2, 2, 3, 3), 32, "eventful", 7},
 		{chain.RandomConfig(o.Seed), 32, "exits", 6},
+		{chain.Fast(1, 3, 5, 7), 32, "default", 9},       // two epochs in each of altair, bellatrix, capella
+		{chain.Fast(5, 6, 7, 8), 32, "leak-recover", 11}, // the leak (epochs 4..8 sparse) runs across all four fork boundaries
 	}
 	if o.Thorough() {
 		plans = append(plans,
